@@ -11,10 +11,11 @@ TIERS = {
     # MC_Handshake_q: the code as it is (deviations S7/S13/S14 named), every attacker schedule with <= 3 attacker
     # deliveries, behaviours dumped for replay; _live: the same under fairness (liveness modulo named deviations);
     # _ideal: the same model with the three deviations repaired satisfies every clause (the judge is satisfiable).
-    # (MC_Handshake_weak.cfg is a non-vacuity instance that is EXPECTED to violate Inv_NoViolation; run by hand, see NOTES.)
-    "quick": dict(mc=[("MC_Handshake_q.cfg", 4), ("MC_Handshake_live.cfg", 4), ("MC_Handshake_ideal.cfg", 4)],
-                  replay_limit=None, random=dict(runs=5000, events=8)),
-    "thorough": dict(mc=[("MC_Handshake_t.cfg", 8), ("MC_Handshake_live.cfg", 4), ("MC_Handshake_ideal.cfg", 4)],
+    # MC_Handshake_guid_q/_t: either party announces a GUID differing from its certificate-bound one in any one byte.
+    # (MC_Handshake_weak*.cfg are non-vacuity instances that are EXPECTED to violate Inv_NoViolation; run by hand, see NOTES.)
+    "quick": dict(mc=[("MC_Handshake_q.cfg", 4), ("MC_Handshake_guid_q.cfg", 4), ("MC_Handshake_live.cfg", 4), ("MC_Handshake_ideal.cfg", 4)],
+                  replay_limit=None, random=dict(runs=5500, events=8)),
+    "thorough": dict(mc=[("MC_Handshake_t.cfg", 8), ("MC_Handshake_guid_t.cfg", 8), ("MC_Handshake_live.cfg", 4), ("MC_Handshake_ideal.cfg", 4)],
                      replay_limit=None, random=dict(runs=40000, events=14)),
 }
 ASSUME = [
@@ -34,6 +35,16 @@ ASSUME = [
     "it; removing any other property is an alteration. Model: all subsets of {hash_c1, hash_c2} (thorough: + dh1, dh2) on every "
     "delivery; driver: every single-property removal, every subset of sender-optional properties on all 6 messages at the 3 points, "
     "symbolic / byte alterations with the hashes removed, random subsets on a third of the random deliveries",
+    "announced GUID: either party (a CA-issued participant) may announce, in c.pdata and towards validate_remote_identity, a GUID that "
+    "differs from the one validate_local_identity bound to its certificate in one byte (model: each of the 16 bytes, either party, "
+    "with <= 1 (quick) / 2 (thorough) attacker deliveries; driver: every bit of every byte). DDS Security 1.1 Table 52 binds bytes 0..5 "
+    "(48 bits): a difference there = 'GUID not bound to the presented certificate', the peer must never complete; a difference only in "
+    "bytes 6..15 and everything the lying party itself reaches are unconstrained; the blocking clauses apply to runs in which both "
+    "parties announce their bound GUID. Bits are chosen so that the order of the announced prefixes (the roles) is kept",
+    "dispatch: besides the call secure_discovery.rs makes from its mirror of the handshake state, a token whose class id says Request "
+    "may be handed to begin_handshake_reply in ANY state of either party (dispatch by message kind at the Authentication plugin API; "
+    "secure_discovery's related-message filter is not relied upon). process_handshake after completion is NOT called (the handshake "
+    "handle is returned after completion; whether a completed handshake survives such a call is not decided by the property statement)",
     "certificate validity period / revocation are not part of the property and not exercised",
 ]
 
